@@ -31,11 +31,21 @@ def list_one_intact(prog, rep, an):
         rep.violation("L1-INTACT", fi.short, "writes below list one", f"an event (or the list) of list one is modified: `{w.how}` on field {w.label} in {w.fn} at {w.loc}: list one must come back unchanged", w.loc, found=[repr(x) for x in bad[:4]])
     else:
         rep.ok("L1-INTACT", fi.short, "writes below list one", f"none of {len(an.writes)} writes targets list one or its events", fi.loc())
+    # list one is swept as it is: the only re-binding of its name is the whole-list copy
+    l1name = copies.get(p1, (p1,))[0]
+    for n in walk_own(fi.node):
+        if isinstance(n, (ast.Assign, ast.AugAssign)) and any(norm(t) in (p1, l1name) for t in (n.targets if isinstance(n, ast.Assign) else [n.target])):
+            whole = isinstance(n, ast.Assign) and isinstance(n.value, ast.Call) and norm(n.value.func) in ("deepcopy", "copy.deepcopy", "list", "copy.copy", "sorted") and len(n.value.args) >= 1 and norm(n.value.args[0]) in (p1, l1name)
+            rep.check(whole, "L1-INTACT", fi.short, f"re-binding {norm(n)[:50]}", "a copy of the whole list", f"list one is re-bound to `{norm(n.value)[:80]}` before the sweep: events of list one that are filtered out there (e.g. zero-length ones) never reach the result, so list one does not come back complete", fi.loc(n))
     loops = [n for n in fi.node.body if isinstance(n, ast.While)]
     if len(loops) != 1:
         rep.undecided("L1-INTACT", fi.short, "loop", f"{len(loops)} while loops", fi.loc())
         return None
     lp = loops[0]
+    nested = [n for n in ast.walk(lp) if isinstance(n, (ast.While, ast.For)) and n is not lp]
+    if nested:
+        rep.violation("L1-INTACT", fi.short, f"nested loop at line {nested[0].lineno}", "the sweep advances in a nested loop: events emitted there are not compared with the current event of the other list (each step of the sweep must look at the current pair), so a list-one event that reaches into the current list-two event is emitted without that event being trimmed", fi.loc(nested[0]))
+        return None
     l1 = copies.get(p1, (p1,))[0]
     l2 = copies.get(p2, (p2,))[0]
     idx = {}
@@ -155,6 +165,11 @@ def cut_points(prog, rep, ctx):
             rep.violation("CUT", fi.short, "overlap test", f"list-two events are routed into the trimming branches by `{touch[0]}`, which also holds for events that merely touch the list-one event: an uncovered list-two event starting exactly where the list-one event ends is cut at its own start, nothing is kept and it is dropped (covered time is lost)", fi.loc(loose[0]), expected="e1_p.intersects(e2_p)", found=touch[0])
         else:
             rep.undecided("CUT", fi.short, "overlap test", f"the trimming site at line {loose[0].lineno} is reachable without an intersects() test", fi.loc(loose[0]))
+    if lp.body:
+        whole2 = [c for c in ast.walk(lp) if isinstance(c, ast.Call) and norm(c.func) == f"{acc}.append" and len(c.args) == 1 and norm(c.args[0]) == e2]
+        r_no = g.reach_filtered(g.node_of(lp.body[0]), lambda u, v, lab: not ((overlap_fact(lab) or (None, None))[0] == "overlap" and overlap_fact(lab)[1] is False))
+        for c in whole2:
+            rep.check(g.node_of(c) not in r_no, "CUT", fi.short, f"untrimmed {acc}.append({e2})", "only behind `not intersects`", f"a list-two event is emitted whole (line {c.lineno}) on a path that does not establish that it does not intersect the current list-one event (the routing test is stricter than Timeslot.intersects, e.g. it also demands a positive-length intersection): a zero-length or otherwise covered list-two event comes back although list one covers it", fi.loc(c))
     calls = [c for c in ast.walk(lp) if isinstance(c, ast.Call) and norm(c.func) == "_split_event"]
     if len(calls) != 2:
         rep.violation("CUT", fi.short, "_split_event call sites", f"{len(calls)} call sites (2 expected)", fi.loc(lp))
@@ -272,6 +287,9 @@ VARIANTS = [
     ("B touching counts as overlap", F, "        if e1_p.intersects(e2_p):", "        if e1_p.gap(e2_p) is None:", "CUT"),
     ("B fast path when list one seems to end before list two starts", F, "    # I looked a lot at aw_transform.union when I wrote this\n", "    if events1 and events2:\n        if events1[-1].timestamp + events2[0].duration <= events2[0].timestamp:\n            return events1 + events2\n", "RESULT"),
     ("OK fast path for an empty second list", F, "    # I looked a lot at aw_transform.union when I wrote this\n", "    if not events2:\n        return events1\n", "ok"),
+    ("B zero-length list-one events filtered out before the sweep", F, "    # I looked a lot at aw_transform.union when I wrote this\n", "    events1 = [e for e in events1 if e.duration > timedelta(0)]\n", "L1-INTACT"),
+    ("B routing demands a positive-length intersection", F, "        if e1_p.intersects(e2_p):", "        overlap = e1_p.intersection(e2_p)\n        if overlap is not None and overlap.duration > timedelta(0):", "CUT"),
+    ("B run of list-one events emitted in a nested loop", F, "        else:\n            if e1.timestamp <= e2.timestamp:\n                events_union.append(e1)\n                e1_i += 1\n", "        else:\n            if e1.timestamp <= e2.timestamp:\n                while e1_i < len(events1) and events1[e1_i].timestamp <= e2.timestamp:\n                    events_union.append(events1[e1_i])\n                    e1_i += 1\n", "L1-INTACT"),
     ("OK guard reordered", F, "    if e.timestamp < dt < e.timestamp + e.duration:", "    if dt > e.timestamp and dt < e.timestamp + e.duration:", "ok"),
     ("OK tail via extend", F, "    events_union += events1[e1_i:]\n", "    events_union.extend(events1[e1_i:])\n", "ok"),
 ]
